@@ -24,3 +24,20 @@ Definition c14_check (c : c14_case) : bool :=
   let s := rrun true (c14_limit c) (c14_discard c) rst0 (c14_trace c) in
   forallb (fun co => phase_match (aget (fst co) (r_calls s)) (snd co)) (c14_calls c) &&
   Nat.eqb (length (r_pending s)) (c14_pending c).
+
+(* histories at the level of channel objects (Recycle.v): the events the harness forced on a real
+   Remote, with what each call returned; the model (channels never handed to a second call) must be
+   able to take every step, and must leave every call with the result observed *)
+From VP Require Import Recycle.
+Definition rres_eqb (a b : rres) : bool :=
+  match a, b with RPayload p, RPayload q => N.eqb p q | RCtx, RCtx => true | _, _ => false end.
+Inductive c14_any := C14Script (c : c14_case) | C14Chan (evs : list rcev) (results : list (N * rres)).
+Definition c14_any_check (c : c14_any) : bool :=
+  match c with
+  | C14Script k => c14_check k
+  | C14Chan evs results =>
+      match rcrun PNoRecycle rc0 evs with
+      | Some s => forallb (fun cr => match aget (fst cr) (rc_done s) with Some r => rres_eqb r (snd cr) | None => false end) results
+      | None => false
+      end
+  end.
